@@ -306,6 +306,36 @@ pub fn expr_space(max_size: usize) -> Vec<(T, usize, Arc<Vec<Expr>>)> {
     v
 }
 
+/// every program obtained from `p` by giving one parameter / local / case binding the name of another declaration, such
+/// that the scope model binds every use to the declaration it denoted before (distinct by text)
+pub fn shadow_variants(p: &Program) -> Vec<Program> {
+    use crate::scope::{rename, resolve, Kind};
+    let base = resolve(p);
+    let mut seen = std::collections::BTreeSet::new();
+    let mut out = Vec::new();
+    for (i, (iname, ikind)) in base.binders.iter().enumerate() {
+        if !matches!(ikind, Kind::Param | Kind::Local | Kind::CaseBinding) {
+            continue;
+        }
+        for (j, (jname, jkind)) in base.binders.iter().enumerate() {
+            if i == j || jname == iname || *jkind == Kind::SelfVar || jname == "start" {
+                continue;
+            }
+            let mut names: Vec<Option<String>> = vec![None; base.binders.len()];
+            names[i] = Some(jname.clone());
+            let q = rename(p, &base, &names);
+            let r = resolve(&q);
+            if r.uses != base.uses || r.duplicate_globals || r.duplicate_params {
+                continue;
+            }
+            if seen.insert(print_program(&q).text) {
+                out.push(q);
+            }
+        }
+    }
+    out
+}
+
 /// Enumerates every program of the expression and statement families and hands it to `handler`.
 pub fn for_each_program(thorough: bool, family_filter: &(dyn Fn(&str) -> bool + Sync), handler: &(dyn Fn(&mut Stats, &str, &mut Program, bool) + Sync)) -> (Stats, serde_json::Value) {
     // expression space: all contexts up to size A, print-only context up to size B
@@ -349,6 +379,23 @@ pub fn for_each_program(thorough: bool, family_filter: &(dyn Fn(&str) -> bool + 
         acc.count(&format!("family:{}", fam.split(':').next().unwrap_or(fam)), 1);
     });
     st.merge(Stats::merge_all(accs));
+    // shadowing variants of the statement-level programs: one parameter, local or case binding takes the name of another
+    // declaration of the program, kept wherever the scope model (scope.rs) says that every use still denotes the same
+    // declaration - so the program means what it meant, and a declaration that stays visible past its block, a branch
+    // binding that survives the branch, or a temporary named after the wrong declaration shows as a different trace
+    if family_filter("shadowed") {
+        let accs = crate::pool::par_items(&progs, 16, |_| Stats::new(), |acc, i, (fam, p)| {
+            let head = fam.split(':').next().unwrap_or(fam);
+            if !thorough && !["enums", "closures", "value-blocks", "recursion", "globals", "late-globals"].contains(&head) {
+                return;
+            }
+            for (k, mut q) in shadow_variants(p).into_iter().enumerate() {
+                handler(acc, &format!("shadowed:{}", head), &mut q, (i + k) % 7001 == 0);
+                acc.count("family:shadowed", 1);
+            }
+        });
+        st.merge(Stats::merge_all(accs));
+    }
     for (t, size, xs) in &space {
         st.count(&format!("expressions:{:?}:size{}", t, size), xs.len() as u64);
     }
